@@ -600,6 +600,88 @@ def _t_statement_spellings(srcs):
         R().visit(tree)
 
 
+def _t_loop_spellings(srcs):
+    """`for i in range(n)` / `range(a, b)` without continue/else -> a counting while loop; `for x in <name>` over a list-valued local
+    (assigned from list(...), sorted(...) or a list display in the same function) -> an index loop `for _k in range(len(xs)): x = xs[_k]`"""
+    import ast
+
+    def has_continue(body):
+        for st_ in body:
+            for x in ast.walk(st_):
+                if isinstance(x, ast.Continue):
+                    return True
+        return False
+
+    class R(ast.NodeTransformer):
+        def __init__(self):
+            self.k = 0
+            self.lists = set()
+
+        def visit_FunctionDef(self, node):
+            old = self.lists
+            self.lists = set()
+            stores = {}
+            for x in ast.walk(node):
+                if isinstance(x, ast.Assign) and len(x.targets) == 1 and isinstance(x.targets[0], ast.Name):
+                    v = x.value
+                    good = isinstance(v, ast.List) or (isinstance(v, ast.Call) and isinstance(v.func, ast.Name) and v.func.id in ("list", "sorted"))
+                    stores.setdefault(x.targets[0].id, []).append(good)
+                elif isinstance(x, ast.Name) and isinstance(x.ctx, ast.Store):
+                    stores.setdefault(x.id, []).append(None)
+            for nm, gs in stores.items():
+                real = [g for g in gs if g is not None]
+                if real and all(real) and len(real) == len(gs) - len(real):     # every binding is one of the list-valued assignments
+                    self.lists.add(nm)
+            self.generic_visit(node)
+            self.lists = old
+            return node
+
+        def visit_For(self, node):
+            self.generic_visit(node)
+            if node.orelse:
+                return node
+            if isinstance(node.target, ast.Tuple) and all(isinstance(e, ast.Name) for e in node.target.elts):
+                self.k += 1
+                e_ = "_e%d" % self.k
+                node.body = [ast.copy_location(ast.Assign(targets=[node.target], value=ast.Name(e_, ast.Load())), node)] + node.body
+                node.target = ast.Name(e_, ast.Store())
+                return node
+            if not isinstance(node.target, ast.Name):
+                return node
+            it = node.iter
+            pure = lambda a: isinstance(a, (ast.Name, ast.Constant)) or (isinstance(a, ast.Attribute) and isinstance(a.value, ast.Name)) or \
+                (isinstance(a, ast.Call) and isinstance(a.func, ast.Name) and a.func.id == "len" and len(a.args) == 1 and isinstance(a.args[0], ast.Name))
+            if isinstance(it, ast.Call) and isinstance(it.func, ast.Name) and it.func.id == "range" and len(it.args) in (1, 2) and not has_continue(node.body) and \
+                    all(pure(a) for a in it.args):
+                lo = it.args[0] if len(it.args) == 2 else ast.Constant(0)
+                hi = it.args[-1]
+                i = node.target.id
+                written = {x.id for st_ in node.body for x in ast.walk(st_) if isinstance(x, ast.Name) and isinstance(x.ctx, ast.Store)}
+                if i in written or any(isinstance(x, ast.Name) and x.id in written for x in ast.walk(hi)) or \
+                        any(isinstance(x, ast.Attribute) and isinstance(x.ctx, ast.Store) for st_ in node.body for x in ast.walk(st_)):
+                    return node
+                init = ast.Assign(targets=[ast.Name(i, ast.Store())], value=lo)
+                loop = ast.While(test=ast.Compare(left=ast.Name(i, ast.Load()), ops=[ast.Lt()], comparators=[hi]),
+                                 body=node.body + [ast.AugAssign(target=ast.Name(i, ast.Store()), op=ast.Add(), value=ast.Constant(1))], orelse=[])
+                return [ast.copy_location(init, node), ast.copy_location(loop, node)]
+            if isinstance(it, ast.Name) and it.id in self.lists:
+                written = {x.id for st_ in node.body for x in ast.walk(st_) if isinstance(x, ast.Name) and isinstance(x.ctx, ast.Store)}
+                mutated = any(isinstance(x, ast.Attribute) and isinstance(x.value, ast.Name) and x.value.id == it.id and x.attr in ("append", "remove", "pop", "extend", "insert", "clear", "sort")
+                              for st_ in node.body for x in ast.walk(st_))
+                if it.id in written or mutated:
+                    return node
+                self.k += 1
+                k = "_k%d" % self.k
+                bind = ast.Assign(targets=[ast.Name(node.target.id, ast.Store())], value=ast.Subscript(value=ast.Name(it.id, ast.Load()), slice=ast.Name(k, ast.Load()), ctx=ast.Load()))
+                node.target = ast.Name(k, ast.Store())
+                node.iter = ast.Call(func=ast.Name("range", ast.Load()), args=[ast.Call(func=ast.Name("len", ast.Load()), args=[ast.Name(it.id, ast.Load())], keywords=[])], keywords=[])
+                node.body = [ast.copy_location(bind, node)] + node.body
+                return node
+            return node
+    for pth, tree in srcs.items():
+        R().visit(tree)
+
+
 def _t_np_operators(srcs):
     """operators spelled as numpy functions where that is the same for every operand the code can see: a @ b -> np.matmul(a, b), np.eye(n) -> np.identity(n)"""
     import ast
@@ -883,7 +965,7 @@ def _t_accept_lists(srcs):
                         n.body[k:k] = ast.parse("if not isinstance(%s, np.ndarray):\n    %s = np.array(%s)\n" % (a.arg, a.arg, a.arg)).body
 
 
-TREE_TRANSFORMS = {"@coerce_params": _t_coerce_params, "@accept_lists": _t_accept_lists, "@early_exit": _t_early_exit, "@numpy_alias": _t_numpy_alias, "@kwargs_calls": _t_kwargs_calls, "@strip_docs_annotate": _t_strip_docs_annotate, "@logging": _t_logging, "@traced": _t_traced, "@kwonly": _t_kwonly, "@extra_param": _t_extra_param, "@try_reraise": _t_try_reraise, "@np_functions": _t_np_functions, "@small_idioms": _t_small_idioms, "@flip_comparisons": _t_flip_comparisons, "@else_after_exit": _t_else_after_exit, "@comp_to_loop": _t_comp_to_loop, "@logic_spellings": _t_logic_spellings, "@local_aliases": _t_local_aliases, "@method_spellings": _t_method_spellings, "@statement_spellings": _t_statement_spellings, "@np_operators": _t_np_operators, "@private_module": _t_private_module, "@swap_branches": _t_swap_branches, "@name_conditions": _t_name_conditions, "@ternary_to_if": _t_ternary_to_if,
+TREE_TRANSFORMS = {"@coerce_params": _t_coerce_params, "@accept_lists": _t_accept_lists, "@early_exit": _t_early_exit, "@numpy_alias": _t_numpy_alias, "@kwargs_calls": _t_kwargs_calls, "@strip_docs_annotate": _t_strip_docs_annotate, "@logging": _t_logging, "@traced": _t_traced, "@kwonly": _t_kwonly, "@extra_param": _t_extra_param, "@try_reraise": _t_try_reraise, "@np_functions": _t_np_functions, "@small_idioms": _t_small_idioms, "@flip_comparisons": _t_flip_comparisons, "@else_after_exit": _t_else_after_exit, "@comp_to_loop": _t_comp_to_loop, "@logic_spellings": _t_logic_spellings, "@local_aliases": _t_local_aliases, "@method_spellings": _t_method_spellings, "@statement_spellings": _t_statement_spellings, "@loop_spellings": _t_loop_spellings, "@np_operators": _t_np_operators, "@private_module": _t_private_module, "@swap_branches": _t_swap_branches, "@name_conditions": _t_name_conditions, "@ternary_to_if": _t_ternary_to_if,
                    "@shim": _t_shim}
 
 
